@@ -14,6 +14,8 @@ import TzVerif.Model.Find
 import TzVerif.Spec.Lookup
 import TzVerif.Proofs.SpecLookup
 import TzVerif.Proofs.IanaRules
+import TzVerif.Proofs.SrcEqTzFile
+import TzVerif.Proofs.SrcEqFind
 
 namespace TzVerif.C10
 open TzVerif.Model TzVerif.Proofs
@@ -70,5 +72,13 @@ theorem iana_rules_satisfy_hypotheses : ∀ a ∈ Gen.ianaRules, RuleOK a :=
 theorem iana_rules_are_accepted :
     Gen.ianaRules.all (fun a => (AlternateTime.new a.std a.dst a.dstStart a.dstStartTime a.dstEnd a.dstEndTime) == .ok a) = true :=
   iana_rules_accepted
+
+/-- what runs on the IANA files — the decoder, the forward lookup and the search — is, translated from the source on
+    every run (DESIGN §13), equal to the model functions the four-way differential drives -/
+theorem translated_pipeline_is_the_model :
+    (∀ b, Src.parse_tz_file b = TzVerif.Model.parseTzFile b) ∧
+    (∀ (z : TzVerif.Model.TimeZone) u, Src.TimeZoneRef.find_local_time_type z u = z.findLocalTimeType u) ∧
+    (∀ y mo d h mi s ns (z : TzVerif.Model.TimeZone), Src.find_date_time [] y mo d h mi s ns z = TzVerif.Model.findDateTime y mo d h mi s ns z) :=
+  ⟨TzVerif.Proofs.SrcEq.parse_tz_file_eq, TzVerif.Proofs.SrcEq.find_local_time_type_eq, TzVerif.Proofs.SrcEq.find_date_time_eq⟩
 
 end TzVerif.C10
